@@ -177,7 +177,7 @@ def run_tlc(module, cfg_text, workers=1, simulate=None, depth=None, seed=None, e
     with open(cfg, "w") as f:
         f.write(cfg_text)
     meta = os.path.join(wd, "meta")
-    cmd = ["java", "-XX:+UseParallelGC", "-Xss16m"] + (jvm or []) + ["-cp", TLA_CP, "tlc2.TLC",
+    cmd = ["java", "-XX:+UseSerialGC", "-Xss16m", "-Xmx2g", "-XX:CICompilerCount=2", "-XX:+TieredCompilation"] + (jvm or []) + ["-cp", TLA_CP, "tlc2.TLC",
            "-workers", str(workers), "-metadir", meta, "-noGenerateSpecTE", "-config", cfg]
     if not deadlock:
         cmd += ["-deadlock"]
